@@ -487,6 +487,24 @@ func runC05(c *h.Ctx) {
 		runMatrixCase(c, "$x[*] ? ("+strings.Join(and, " && ")+")", vars, vt)
 		runMatrixCase(c, strings.Join(ex, " && "), vars, vt)
 	}
+	// (a2c) .decimal(p,s) of numbers next to the largest double, with scales that
+	// round them up to a multiple of a large power of ten
+	{
+		k := 0
+		for _, xv := range []any{math.MaxFloat64, -math.MaxFloat64, json.Number("1.7976931348623157e308"), "1.7976931348623157e308", 1.75e308, json.Number("-1.79e308"), 9.99e307, json.Number("1e308")} {
+			for _, args := range []string{"1000,-308", "5,-304", "400,-306", "1000,-300", "10,-308", "310,-1", "1000,-307", "309,-308", "1,-308", "1000,-1000"} {
+				k++
+				if !c.Mine(k) {
+					continue
+				}
+				vars := map[string]any{"x": xv}
+				vt := fmt.Sprintf(`{"x":%s}`, kindJSON(xv))
+				runMatrixCase(c, "$x.decimal("+args+")", vars, vt)
+				runMatrixCase(c, "$x.decimal("+args+").type()", vars, vt)
+				runMatrixCase(c, "-$x.decimal("+args+")", vars, vt)
+			}
+		}
+	}
 	// (a3) datetime texts at the edges: every datetime method, printing, and
 	// comparison of every pair
 	for i, x := range c05HostileTimes {
